@@ -155,6 +155,11 @@ class Edge:
         self.site = site
 
 
+LAZY_ADAPTORS = ("zip", "chain", "enumerate", "rev", "skip", "take", "step_by", "peekable", "cloned", "copied")
+ADAPTOR_TRAITS = ("std::iter::Iterator", "std::iter::DoubleEndedIterator", "rayon::iter::IndexedParallelIterator",
+                  "rayon::iter::ParallelIterator")
+
+
 class Graph:
     def __init__(self, facts, bodies, anchor_ids, ctx_adt=None):
         self.facts = facts
@@ -166,6 +171,10 @@ class Graph:
         self.call_sites = 0
         self.sink_sites = []
         self.field_reads = defaultdict(int)
+        self.zip_items = {}     # (body, local) -> (tree, wrapped in Some?, call-string action)
+        self._zip_syn = {}
+        for bid in sorted(self.scope):
+            self._zip_prepass(facts.bodies[bid])
         for bid in sorted(self.scope):
             self._build_body(facts.bodies[bid])
 
@@ -241,10 +250,144 @@ class Graph:
             return ch[-1][1]
         return self.lty(b, pl["l"])
 
+    # ------------------------------------------------------------------ zip items
+    ZIP_IDENT = ("into_iter", "by_ref", "rev", "skip", "take", "into_par_iter", "peekable", "fuse", "step_by")
+    ZIP_HOF = {"map": 2, "for_each": 2, "all": 2, "any": 2, "filter": 2, "filter_map": 2, "flat_map": 2,
+               "try_for_each": 2, "inspect": 2, "find": 2, "position": 2, "fold": 3, "try_fold": 3}
+
+    def _zip_prepass(self, b):
+        """which locals hold an item of `a.zip(b)` (possibly nested / enumerated), so that reading `.0` / `.1` of
+        the item depends on one side only. tree = ("leaf", node) | ("zip", t0, t1) | ("enum", t) | ("ctr",)."""
+        bid = b.id
+        if not any(last_seg(t.get("callee") or "") == "zip" for _, t in b.calls()):
+            return
+        ndef = defaultdict(int)
+        for blk in b.blocks:
+            for st in blk["stmts"]:
+                if not st["dst"]["p"]:
+                    ndef[st["dst"]["l"]] += 1
+            t = blk["term"]
+            if t["k"] == "call" and not t["dst"]["p"]:
+                ndef[t["dst"]["l"]] += 1
+        tree = {}
+        changed = True
+        rounds = 0
+        while changed and rounds < 20:
+            changed = False
+            rounds += 1
+            for blk in b.blocks:
+                for st in blk["stmts"]:
+                    d = st["dst"]
+                    if d["p"] or ndef[d["l"]] != 1 or d["l"] in tree:
+                        continue
+                    rv = st["rv"]
+                    src = None
+                    if rv["k"] == "use" and len(rv["ops"]) == 1 and rv["ops"][0]["k"] in ("copy", "move"):
+                        src = rv["ops"][0]["pl"]
+                    elif rv["k"] == "ref":
+                        src = rv["pl"]
+                    if src is not None and src["l"] in tree and all(x == "*" for x in src["p"]):
+                        tree[d["l"]] = tree[src["l"]]
+                        changed = True
+            for i, t in b.calls():
+                d = t["dst"]
+                if d["p"] or ndef[d["l"]] != 1 or d["l"] in tree:
+                    continue
+                name = last_seg(t.get("callee") or "")
+                args = t["args"]
+                if t.get("callee_local") or not args or any(a["k"] not in ("copy", "move") or a["pl"]["p"] for a in args[:1]):
+                    continue
+                a0 = args[0]["pl"]["l"]
+                if name == "zip" and len(args) == 2 and args[1]["k"] in ("copy", "move") and not args[1]["pl"]["p"]:
+                    a1 = args[1]["pl"]["l"]
+                    tree[d["l"]] = ("zip", tree.get(a0, ("leaf", (bid, a0))), tree.get(a1, ("leaf", (bid, a1))))
+                    changed = True
+                elif a0 in tree and name == "enumerate":
+                    tree[d["l"]] = ("enum", tree[a0])
+                    changed = True
+                elif a0 in tree and name in self.ZIP_IDENT:
+                    tree[d["l"]] = tree[a0]
+                    changed = True
+        for i, t in b.calls():
+            name = last_seg(t.get("callee") or "")
+            args = t["args"]
+            if not args or args[0]["k"] not in ("copy", "move") or args[0]["pl"]["p"] or t.get("callee_local"):
+                continue
+            a0 = args[0]["pl"]["l"]
+            if a0 not in tree or tree[a0][0] == "leaf":
+                continue
+            if name == "next" and not t["dst"]["p"] and ndef[t["dst"]["l"]] == 1:
+                self.zip_items[(bid, t["dst"]["l"])] = (tree[a0], True, ("next", bid, i))
+            elif name in self.ZIP_HOF and len(args) >= 2:
+                ca = args[-1]
+                if ca["k"] in ("copy", "move") and not ca["pl"]["p"]:
+                    kid = b.locals[ca["pl"]["l"]].get("closure")
+                    if kid in self.scope:
+                        key = (kid, self.ZIP_HOF[name])
+                        if key in self.zip_items:
+                            self.zip_items[key] = None      # the closure is used at two sites: give up on it
+                        else:
+                            self.zip_items[key] = (tree[a0], False, ("in", (bid, i), kid))
+
+    def _zip_source(self, b, pl, chain):
+        """(source node, remaining chain) when the place reads one side of a zip item, else None."""
+        item = self.zip_items.get((b.id, pl["l"]))
+        if not item:
+            return None
+        tree, some, cs = item
+        p = pl["p"]
+        k = 0
+        while k < len(p) and p[k] == "*":
+            k += 1
+        if some:
+            if not (k + 1 < len(p) and isinstance(p[k], dict) and p[k].get("dc") == "Some"
+                    and isinstance(p[k + 1], dict) and p[k + 1].get("f") == 0):
+                return None
+            k += 2
+        path = []
+        while tree[0] in ("zip", "enum"):
+            while k < len(p) and p[k] == "*":
+                k += 1
+            if not (k < len(p) and isinstance(p[k], dict) and "f" in p[k] and p[k].get("adt") is None):
+                return None
+            idx = p[k]["f"]
+            if tree[0] == "zip":
+                if idx not in (0, 1):
+                    return None
+                tree = tree[1 + idx]
+            else:
+                if idx not in (0, 1):
+                    return None
+                tree = ("ctr",) if idx == 0 else tree[1]
+            path.append(idx)
+            k += 1
+        key = (b.id, pl["l"], tuple(path))
+        syn = self._zip_syn.get(key)
+        if syn is None:
+            ty = chain[k - 1][1]
+            b.locals.append({"ty": ty, "copy": True, "mutb": False, "name": "zip%s" % "".join(".%d" % x for x in path),
+                             "synthetic": True})
+            syn = (b.id, len(b.locals) - 1)
+            self._zip_syn[key] = syn
+            if cs is not None and cs[0] == "next":
+                # the item is (part of) what this `next` call returned
+                self.edge(("CALLRES", cs[1], cs[2]), Edge(syn, DATA, "callres", None, ty, site=(cs[1], cs[2])))
+                cs = None
+            if tree[0] == "leaf":
+                self.edge(tree[1], Edge(syn, DATA, "foreign", None, ty, cs=cs))
+            # how many items there are (and whether this one exists) depends on the whole zip
+            self.edge((b.id, pl["l"]), Edge(syn, CTRL, SHAPE, None, ty))
+        return syn, chain[k:], {"l": syn[1], "p": p[k:]}
+
     def _read_place(self, b, pl, dst, kind, op, dst_ty, site=None, subst=None, cs=None):
         """edges for reading place `pl` into `dst`."""
         bid = b.id
         chain = self._place_chain(b, pl)
+        zs = self._zip_source(b, pl, chain) if (bid, pl["l"]) in self.zip_items else None
+        if zs is not None:
+            syn, chain, npl = zs
+            self._read_place(b, npl, dst, kind, op, dst_ty, site, subst, cs)
+            return
         tys = list(chain)
         self.edge((bid, pl["l"]), Edge(dst, kind, op, tys or None, dst_ty, site=site, subst=subst, cs=cs))
         # index locals
@@ -462,6 +605,8 @@ class Graph:
                 for a in args:
                     self._read_op(b, a, d, DATA, opk, dst_ty, site)
             muts = [l for l in arg_loc if l is not None and self._mutb(b, l)]
+            if name in LAZY_ADAPTORS and t.get("callee_trait") in ADAPTOR_TRAITS:
+                muts = []   # builds a lazy adaptor around its operands: nothing is advanced or written
             for m in muts:
                 mty = self.lty(b, m)
                 for j, a in enumerate(args):
@@ -751,11 +896,17 @@ def payload_nodes(g, starts, elem_tys, max_depth=60):
             return sets[n[0]]
         return ()
 
+    def synthetic(n):
+        return isinstance(n, tuple) and len(n) == 2 and n[0] in g.facts.bodies and isinstance(n[1], int) \
+            and n[1] >= 0 and g.facts.bodies[n[0]].locals[n[1]].get("synthetic")
+
     def is_payload(n):
         ty = g.node_ty(n)
-        return ty is not None and strip_refs(ty) in tys_of(n)
+        return ty is not None and strip_refs(ty) in tys_of(n) and not synthetic(n)
 
     def is_carrier(n):
+        if synthetic(n):
+            return True     # one side of a zip item: the local bound from it is the payload local
         ty = g.node_ty(n)
         if ty is None:
             return isinstance(n, tuple) and n[0] in ("FIELD", "CALLRES")
